@@ -34,7 +34,7 @@ def main():
         meta_all = json.load(open(os.path.join(out, "meta.json")))
     except Exception:
         pass
-    for x in ("A", "B"):
+    for x in [x for x in ("A", "B") if os.path.exists(os.path.join(out, f"{x}.diff"))]:
         diff = os.path.join(out, f"{x}.diff")
         demo = os.path.join(out, f"demo_{x}.py")
         if not (os.path.exists(diff) and os.path.exists(demo)):
@@ -65,7 +65,8 @@ def main():
                   f"demo_passes_on_original={rc_do == 0} detected_by={detected} "
                   f"exits={ {c: res[c]['exit'] for c in checks} }")
             if valid:
-                dst = os.path.join(VERIF, "seeded", f"{prop}-{x}")
+                label = os.environ.get("SEED_LABEL", x)      # third batch: SEED_LABEL=C
+                dst = os.path.join(VERIF, "seeded", f"{prop}-{label}")
                 os.makedirs(dst, exist_ok=True)
                 shutil.copy(diff, os.path.join(dst, "patch.diff"))
                 shutil.copy(demo, os.path.join(dst, "demo.py"))
